@@ -1,7 +1,9 @@
 package main
 
 import (
+	"bytes"
 	"encoding/binary"
+	"fmt"
 
 	"github.com/cloudflare/pat-go/quicwire"
 )
@@ -145,6 +147,16 @@ func varintBytesEvent(prefix, s []byte) ev {
 	var out []byte
 	e["avb_panic"] = guard(func() { out = quicwire.AppendVarintBytes(dst, s) })
 	e["avb_out"] = B(out)
+	// ... and into a destination with room for everything (the encoder works in place there)
+	{
+		roomy := make([]byte, len(prefix), len(prefix)+len(s)+24)
+		copy(roomy, prefix)
+		var got []byte
+		p := guard(func() { got = quicwire.AppendVarintBytes(roomy, s) })
+		if p != "" || !bytes.Equal(got, out) {
+			e["avb_panic"] = fmt.Sprintf("in a roomy destination the result differs (%s)", p)
+		}
+	}
 	var back []byte
 	var n int
 	if len(out) >= len(prefix) {
